@@ -54,6 +54,7 @@ const (
 type Script struct {
 	Actions []Action
 	GasUse  uint64 // gas consumed by the frame (capped at the gas available)
+	MinGas  uint64 // head-room the frame needs on entry (63/64 rule, gasleft() checks): below it the frame runs out of gas
 	Outcome int
 	Ret     []byte
 	// observation
@@ -94,6 +95,9 @@ func interpRun(evm *corevm.EVM, contract *corevm.Contract, input []byte, readOnl
 		sc.RanReadOnly = true
 	}
 	self := contract.Address()
+	if contract.Gas < sc.MinGas {
+		return nil, corevm.ErrOutOfGas
+	}
 	use := sc.GasUse
 	if use > contract.Gas {
 		use = contract.Gas
